@@ -42,6 +42,8 @@ type respCall struct {
 type cbLog struct {
 	Resp  []respCall
 	State []tmbytes.HexBytes
+	// OnResp: what the owning module does, through the keeper, when it is handed a batch's result
+	OnResp func(ctx sdk.Context, id tmbytes.HexBytes)
 }
 
 const Mod = "mod"
@@ -50,6 +52,9 @@ func registerCallbacks(k keeper.Keeper) *cbLog {
 	log := &cbLog{}
 	_ = k.RegisterResponseCallback(Mod, func(ctx sdk.Context, id tmbytes.HexBytes, outs []string, err error) {
 		log.Resp = append(log.Resp, respCall{ID: id, Outputs: outs, Err: err != nil})
+		if log.OnResp != nil {
+			log.OnResp(ctx, id)
+		}
 	})
 	_ = k.RegisterStateCallback(Mod, func(ctx sdk.Context, id tmbytes.HexBytes, cause string) {
 		log.State = append(log.State, id)
